@@ -4,9 +4,15 @@ seeded/<id>/meta.json and seeded/MATRIX.md).  /repo is restored after every run.
 import json, os, re, subprocess, sys
 ROOT = os.path.dirname(os.path.dirname(os.path.abspath(__file__)))
 rows = []
+only = sys.argv[1] if len(sys.argv) > 1 else ""   # e.g. "efg": only the seeds with these letters (the table keeps the recorded verdicts of the others)
 for sid in sorted(os.listdir(os.path.join(ROOT, "seeded"))):
     d = os.path.join(ROOT, "seeded", sid)
     if not os.path.isdir(d):
+        continue
+    if only and sid[-1] not in only:
+        m0 = json.load(open(os.path.join(d, "meta.json")))
+        db = m0.get("detected_by") or {}
+        rows.append((sid, m0["breaks_property"], db.get("verdict", "not run"), db.get("first_failing_input", "")))
         continue
     meta = json.load(open(os.path.join(d, "meta.json")))
     prop = meta["breaks_property"]
